@@ -234,6 +234,14 @@ func analyseHook(c *Ctx, h *staleHiding, owner *Body, typ *ast.FuncType, body *a
 		// go/build never sees the derived file: a remnant cannot be an invalid file, rename the package or fail the load
 		return goFilesOK, goFilesOK
 	}
+	// filter form: the hook edits what ctxt.Import returned. go/build has read the package clause (and the imports) of every .go
+	// file of the directory before Import returns: a derived file with another package clause (the package was renamed since the
+	// last run) or without one (the remnant of an interrupted write, an empty file) makes Import fail with a
+	// MultiplePackageError / a parse error and a package description that cannot be repaired by dropping a name from GoFiles;
+	// the loader then drops the package and goderive exits 0 without having generated anything (or fails for ever). Only a
+	// directory listing that never shows the file keeps it out (context form). The remaining clauses are still examined so
+	// that the report says everything that is wrong.
+	fail("filter-after-import", "the FindPackage hook lets go/build read "+derived+" (ctxt.Import on the unfiltered directory) and only afterwards drops the name from the package it returns: a derived file whose package clause differs from the sources' (renamed package) or is missing (truncated or empty remnant) has by then failed the import, so the package is silently skipped or every later run fails; the file must be hidden from the directory listing go/build sees", pos, false)
 	// bp, err := ctxt.Import(importPath, …)
 	var bpObj, errObj types.Object
 	imports := 0
